@@ -3,12 +3,13 @@
 From Coq Require Import List ZArith NArith Bool.
 From Coq.Strings Require Import Byte.
 Import ListNotations.
-From BWTable Require Import Cells Fmt StrOrder Sort SortProofs SortSpec Limit Reduce ReduceSpec Expr ExprSpec.
+From BWTable Require Import Cells Fmt StrOrder Sort SortProofs SortSpec Limit Reduce ReduceSpec GroupProofs Expr ExprSpec.
 Open Scope Z_scope.
 
 (* the repairs applied to /repo so far (the model follows the CURRENT tree) *)
 Definition cur_reject_negative_limit : bool := true.    (* repo commit 0089c85 *)
 Definition cur_repeated_keys_fixed : bool := true.      (* repo commit 67e0e70 *)
+Definition cur_pushdown_guarded : bool := true.         (* repo commit e34ecad (planner builder) *)
 
 Fixpoint row_eqb (a b : row) : bool :=
   match a, b with
@@ -135,7 +136,7 @@ Definition e2e12_verdict (outs : list binding) (keys seen : list skey) (lim : op
       let cfg_ok := if dups then (if cur_repeated_keys_fixed then keys_eqb seen seen_m else keys_perm_b seen seen_m)
                     else keys_eqb seen keys in
       let c : sort_cfg := match keys with [] => None | _ => Some seen end in
-      let fetched := fetch_pushdown pushdown lim base in
+      let fetched := fetch_pushdown (pushdown_mask cur_pushdown_guarded c pushdown) lim base in
       let ind12 := match c with Some ks => d12 ks fetched | None => false end in
       let homog := match c with Some ks => homogeneous ks fetched | None => true end in
       let n_ok := match lim with
@@ -155,7 +156,7 @@ Definition e2e12_verdict (outs : list binding) (keys seen : list skey) (lim : op
             end && (match c with Some ks => if ind12 then spec_sorted_b ks o else true | None => true end)
         end in
       let ex := if exact && Nat.leb (length fetched) 12
-                then match exec_order_limit_with (@go_isort row) pushdown c lim base with
+                then match exec_order_limit_with (@go_isort row) cur_pushdown_guarded pushdown c lim base with
                      | Ok m => rows_eqb m o
                      | _ => false
                      end
@@ -255,9 +256,11 @@ Definition reduce_verdict (bs : list binding) (c : sort_cfg) (aaps : list aap) (
   if N.eqb v 0 && N.eqb outcome 0 then
     match c with
     | Some ks =>
+        (* inside D11 (theorem C11_groups_partial) a disagreement with the spec is a contradiction: 2 *)
         match spec_reduce (map k_b ks) aaps inp with
-        | Ok sp => if multiset_agree obs sp out then v else 4%N
-        | _ => 4%N
+        | Ok sp => if multiset_agree obs sp out then (if d11 ks inp then 1%N else v)
+                   else if d11 ks inp then 2%N else 4%N
+        | _ => if d11 ks inp then 2%N else 4%N
         end
     | None => v
     end
